@@ -189,6 +189,7 @@ def finish(pid, tier, seed, engines, wall, level="model_checking", assumptions=(
         "distinct_nontrivial": sum(e.nontrivial for e in engines),
         "rule": " | ".join(e.rule for e in engines if e.rule),
         "tlc_runs": [r for e in engines for r in e.tlc_runs],
+        "incomplete_tlc_runs": [r["name"] + ": " + str(r["incomplete"]) for e in engines for r in e.tlc_runs if r.get("incomplete")],
         "traces_recorded": sum(e.traces for e in engines),
         "canaries": [c for e in engines for c in e.canaries],
         "known_findings_met": sorted(seen),
@@ -198,6 +199,8 @@ def finish(pid, tier, seed, engines, wall, level="model_checking", assumptions=(
     }
     if extra_cov:
         cov.update(extra_cov)
+    for line in cov["incomplete_tlc_runs"]:
+        print("INCOMPLETE (nothing refuted in what was explored): " + line)
     bad_canary = [c for e in engines for c in e.canaries if not c.get("detected")]
     write_evidence(pid, tier, seed, level, cov, wall, len(viol), list(assumptions))
     if bad_canary:
